@@ -393,6 +393,30 @@ func (vc *VC) loopHead(b *ssa.BasicBlock, n int, h *Heap, reach string) *Heap {
 	}
 	vc.hdrHeap[b] = hh.clone()
 	vc.hdrPhi[b] = phis
+	// automatic invariant: a slice variable that is only ever nil, make()d or appended to in this
+	// function has a backing array allocated after function entry (proved on entry and back edges)
+	a00 := vc.get(vc.entryHeap, "$alloc")
+	for _, in := range b.Instrs {
+		phi, ok := in.(*ssa.Phi)
+		if !ok {
+			break
+		}
+		if _, isSlice := phi.Type().Underlying().(*types.Slice); isSlice && freshSlice(phi, map[ssa.Value]bool{}) {
+			ev := entryVals[phi]
+			vc.oblige("invariant", fmt.Sprintf("loop%d.freshslice.%s.entry", n, phi.Comment), vc.safetyTags(), reach, or(eq(ev.S, "(mk-slice 0 0 0 0)"), app(">", app("s.arr", ev.S), a00)), "slice "+phi.Comment+" is nil or allocated in this call")
+			vc.assume(reach, or(eq(phis[phi].S, "(mk-slice 0 0 0 0)"), app(">", app("s.arr", phis[phi].S), a00)))
+		}
+	}
+	if vc.contract != nil && vc.contract.HasModifies {
+		// the function's frame is an automatic loop invariant (it holds trivially where the loop is
+		// entered only if it held so far: proved on entry, assumed at the head, proved on every back edge)
+		for _, fg := range vc.frameGoals(vc.contract, h) {
+			vc.oblige("frame", fmt.Sprintf("loop%d.frame.%s.entry", n, fg[0]), vc.safetyTags(), reach, fg[1], "modifies clause as loop invariant")
+		}
+		for _, fg := range vc.frameGoals(vc.contract, hh) {
+			vc.assume(reach, fg[1])
+		}
+	}
 	env2 := vc.loopEnv(b, b, hh, nil)
 	for i, cl := range ls.Invariants {
 		s, err := env2.evalAssume(cl.Expr)
@@ -432,8 +456,26 @@ func (vc *VC) backEdge(p, hdr *ssa.BasicBlock, h *Heap, reach string) {
 		}
 		vc.oblige("invariant", fmt.Sprintf("loop%d.%s.preserved%s", n, vc.contract.clauseName(cl, i), sfx), cl.Tags, reach, s, cl.Src)
 	}
+	a00 := vc.get(vc.entryHeap, "$alloc")
+	for _, in := range hdr.Instrs {
+		phi, ok := in.(*ssa.Phi)
+		if !ok {
+			break
+		}
+		if _, isSlice := phi.Type().Underlying().(*types.Slice); isSlice && freshSlice(phi, map[ssa.Value]bool{}) {
+			nv := subst[phi]
+			vc.oblige("invariant", fmt.Sprintf("loop%d.freshslice.%s.preserved%s", n, phi.Comment, sfx), vc.safetyTags(), reach, or(eq(nv.S, "(mk-slice 0 0 0 0)"), app(">", app("s.arr", nv.S), a00)), "slice "+phi.Comment+" is nil or allocated in this call")
+		}
+	}
+	if vc.contract != nil && vc.contract.HasModifies {
+		for _, fg := range vc.frameGoals(vc.contract, h) {
+			vc.oblige("frame", fmt.Sprintf("loop%d.frame.%s.preserved%s", n, fg[0], sfx), vc.safetyTags(), reach, fg[1], "modifies clause as loop invariant")
+		}
+	}
 	for i, cl := range ls.Steps {
-		s, err := env.evalGoal(cl.Expr)
+		senv := *env
+		senv.oldIsPre = true
+		s, err := senv.evalGoal(cl.Expr)
 		if err != nil {
 			panic(evalError{fmt.Sprintf("loop %d step: %v", n, err)})
 		}
@@ -666,7 +708,11 @@ func (vc *VC) execInstr(b *ssa.BasicBlock, in ssa.Instruction, h *Heap, reach st
 	case *ssa.Field:
 		xv := vc.value(x.X)
 		st := x.X.Type().Underlying().(*types.Struct)
-		vc.setVal(x, app(xv.Sort+"."+st.Field(x.Field).Name(), xv.S))
+		if !isModuleStruct(x.X.Type()) {
+			vc.setVal(x, app(vc.extAccessor(x.X.Type(), st, x.Field), xv.S))
+		} else {
+			vc.setVal(x, app(xv.Sort+"."+st.Field(x.Field).Name(), xv.S))
+		}
 	case *ssa.IndexAddr:
 		vc.execIndexAddr(x, h, reach)
 	case *ssa.Index:
@@ -856,7 +902,11 @@ func (vc *VC) execFieldAddr(x *ssa.FieldAddr, h *Heap, reach string) {
 	if base, ok := vc.addrs[x.X]; ok {
 		// address inside a struct value stored in a component
 		a := *base
-		a.path = append(append([]pathSel{}, base.path...), pathSel{sort: vc.u.sortOf(st), st: stu, field: x.Field})
+		sel := pathSel{sort: vc.u.sortOf(st), st: stu, field: x.Field}
+		if !isModuleStruct(st) {
+			sel.ext = vc.extAccessor(st, stu, x.Field)
+		}
+		a.path = append(append([]pathSel{}, base.path...), sel)
 		a.typ = ft
 		vc.addrs[x] = &a
 		return
@@ -866,8 +916,11 @@ func (vc *VC) execFieldAddr(x *ssa.FieldAddr, h *Heap, reach string) {
 		vc.checkNonNil(p.S, reach, "field access through "+x.X.Name())
 	}
 	if !isModuleStruct(st) {
-		// field of an external struct: opaque
-		panic(unsupportedErr("field of external struct " + st.String()))
+		// field of an external struct reached through a pointer: read-only, opaque
+		comp, cs := vc.cellComp(st)
+		vc.addrs[x] = &Addr{comp: comp, kind: 'c', ref: p.S, top: cs, topT: st, typ: ft,
+			path: []pathSel{{sort: cs, st: stu, field: x.Field, ext: vc.extAccessor(st, stu, x.Field)}}}
+		return
 	}
 	comp, fs, _ := vc.fieldCompOf(st, x.Field)
 	_, fresh := x.X.(*ssa.Alloc)
@@ -1354,6 +1407,7 @@ func (vc *VC) checkReturn(b *ssa.BasicBlock, results []Term, h *Heap, reach stri
 		for k, v := range env.vars {
 			lenv.vars[k] = v
 		}
+		lenv.oldIsPre = true
 		for i, cl := range ls.Exits {
 			s, err := lenv.evalGoal(cl.Expr)
 			if err != nil {
@@ -1367,9 +1421,18 @@ func (vc *VC) checkReturn(b *ssa.BasicBlock, results []Term, h *Heap, reach stri
 
 // frame obligations for an explicit modifies clause
 func (vc *VC) frameObligations(c *Contract, h *Heap, reach, sfx string) {
+	for _, fg := range vc.frameGoals(c, h) {
+		vc.oblige("frame", "frame."+fg[0]+sfx, vc.safetyTags(), reach, fg[1], "modifies clause: "+fg[0]+" unchanged outside the declared locations")
+	}
+}
+
+// frameGoals: for every component whose version in h differs from the entry version, the formula
+// "unchanged since function entry outside the locations the modifies clause allows"
+func (vc *VC) frameGoals(c *Contract, h *Heap) [][2]string {
 	env := vc.entryEnv()
 	allowed := vc.modifiesItems(env, c)
 	a0 := vc.get(vc.entryHeap, "$alloc")
+	var out [][2]string
 	for _, comp := range sortedKeys(vc.compSortSet()) {
 		if comp == "$alloc" {
 			continue
@@ -1397,14 +1460,15 @@ func (vc *VC) frameObligations(c *Contract, h *Heap, reach, sfx string) {
 				excl = append(excl, not(allowedCond(r, "r!f")))
 			}
 			if goal == "" {
-				goal = fmt.Sprintf("(forall ((r!f Int)) %s)", implies(and(append([]string{app("<=", "0", "r!f"), app("<=", "r!f", a0)}, excl...)...), eq(app("select", cur, "r!f"), app("select", old, "r!f"))))
+				goal = fmt.Sprintf("(forall ((r!f Int)) (! %s :pattern ((select %s r!f))))", implies(and(append([]string{app("<=", "0", "r!f"), app("<=", "r!f", a0)}, excl...)...), eq(app("select", cur, "r!f"), app("select", old, "r!f"))), cur)
 			}
 		}
 		if goal == "true" {
 			continue
 		}
-		vc.oblige("frame", "frame."+comp+sfx, vc.safetyTags(), reach, goal, "modifies clause: "+comp+" unchanged outside the declared locations")
+		out = append(out, [2]string{comp, goal})
 	}
+	return out
 }
 
 func (vc *VC) compSortSet() map[string]bool {
@@ -1538,4 +1602,11 @@ func allowedCond(entry, r string) string {
 		return strings.ReplaceAll(strings.TrimPrefix(entry, "λ"), "%r", r)
 	}
 	return eq(r, entry)
+}
+
+// accessor of a field of an opaque external struct value
+func (vc *VC) extAccessor(t types.Type, st *types.Struct, field int) string {
+	s := vc.u.sortOf(t)
+	name := "extfield." + sortKey(s) + "." + st.Field(field).Name()
+	return vc.u.ufun(name, []Sort{s}, vc.u.sortOf(st.Field(field).Type()))
 }
